@@ -34,12 +34,12 @@ INVS = ["FTypeOK", "Solvable", "RatOK", "FRatOK",
 # parts single-worker TLC processes per scope (check + emit in one pass); run: how many of them run
 SCOPES = {
     "quick": [dict(N=3, MaxX=2, parts=4, run=4, coverage=True),   # + a coverage-statistics run on 1/16 of it
-              dict(N=4, MaxX=1, parts=12, run=12)],
+              dict(N=4, MaxX=1, parts=12, run=12, emit=8)],   # all 12 parts checked, 8 (by seed) replayed
     "thorough": [dict(N=3, MaxX=2, parts=1, run=1, coverage=True),
                  dict(N=3, MaxX=3, parts=6, run=6),
                  dict(N=4, MaxX=1, parts=6, run=6),
-                 dict(N=4, MaxX=2, parts=120, run=6),      # 6/120 of ~53k chains x 50 pairs, chosen by the seed
-                 dict(N=5, MaxX=1, parts=400, run=4)],     # 4/400 of ~27k chains x 180 pairs
+                 dict(N=4, MaxX=2, parts=120, run=4),      # 4/120 of ~49k chains x 50 pairs, chosen by the seed
+                 dict(N=5, MaxX=1, parts=400, run=3)],     # 3/400 of ~27k chains x 180 pairs
 }
 
 
@@ -154,22 +154,24 @@ def run(ctx):
                              label="N=%d MaxX=%d 1/16 slice, action coverage" % (sc["N"], sc["MaxX"])))
         for k in range(sc["run"]):
             p = (first + k * max(1, sc["parts"] // sc["run"])) % sc["parts"]
+            emit = k < sc.get("emit", sc["run"])
             cfg = core.write_cfg(os.path.join(d, "mcf%d_%d.cfg" % (si, p)), init="FInit", next_="FNext",
-                                 invariants=INVS + ["EmitFInv"],
+                                 invariants=INVS + (["EmitFInv"] if emit else []),
                                  constants=dict(N=sc["N"], D=1, MaxX=sc["MaxX"], Part=p, Parts=sc["parts"],
-                                                Emit="FALSE", EmitF="TRUE", Chains="<- MCChains",
+                                                Emit="FALSE", EmitF="TRUE" if emit else "FALSE", Chains="<- MCChains",
                                                 Lags="<- MCLags", Modes="<- MCModes"))
-            scs.append(sc)
+            scs.append(sc if emit else None)
             jobs.append(dict(module=mod, cfg=os.path.basename(cfg), cwd=d, workers=1, timeout=3600, java_opts=SMALL_HEAP,
-                             label="N=%d MaxX=%d part %d/%d check+emit" % (sc["N"], sc["MaxX"], p, sc["parts"])))
-        if sc["run"] < sc["parts"]:
+                             label="N=%d MaxX=%d part %d/%d check%s" % (sc["N"], sc["MaxX"], p, sc["parts"],
+                                                                        "+emit" if emit else "")))
+        if sc.get("emit", sc["run"]) < sc["parts"]:
             ctx.exhaustive = False
     results = ctx.tlc_parallel(jobs, max_par=16)
     t1 = time.time()
     ncases, kinds, undefined = 0, {}, 0
     for r, j, sc in zip(results, jobs, scs):
         if sc is None:
-            if not r.coverage:
+            if j.get("coverage") and not r.coverage:
                 raise core.MachineryError("no coverage statistics from %s" % j["label"])
             continue
         cases = [p for t, p in r.prints if t == "CASE"]
